@@ -169,6 +169,8 @@ def strategy_(d, tier):
             lab = d.weighted([(6, ""), (2, "lab%d" % len(lines)), (1, "x"), (1, "m")])
             lines.append("%s\t%s\t%s" % (lab, op.lower() if d.bool(0.5) else op, args))
         opts = d.subset(["-L", "-g", "-C", "-u", "-P", "-M", "-U", "-x", "-relaxed", "-compmode", "-s", "-I", "-A", "-r"], 0.12)
+        if d.bool(0.3):
+            opts += arg_options(d, lines, cl)
         return dict(kind="stmt", cpu=cpu, lines=lines, opts=opts)
     if kind == "mut":
         names = corpus.names()
@@ -306,6 +308,65 @@ def lexical_work_ok(text):
     if re.search(r"[$%@]|0x|h\b", text, re.I) and re.search(r"[0-9a-f]{5,}", text, re.I):
         return False
     return True
+
+
+DEFVALS = ["", "=1", "=0", "=-1", "=$7fffffff", "=1.5", "=1e300", '="A"', '="ABCDEFGHIJKLMNOPQRSTUVWXYZ"', '=""',
+           "=1+", "=nosuch", "==", '="unterminated', "=1/0", "='a'", "=(1,2)", '="a,b"', "=9999999999999999999999"]
+
+
+def arg_options(d, lines, cl):
+    """options that take an argument (every option of asl's table), with ordinary, boundary and malformed values;
+    -D symbols are also used by a statement so that their value is read"""
+    out = []
+    for _ in range(d.int(1, 3)):
+        k = d.weighted([(5, "D"), (2, "cpu"), (2, "radix"), (1, "split"), (2, "t"), (2, "maxerr"), (1, "maxinc"),
+                        (1, "i"), (1, "o"), (1, "olist"), (1, "share"), (1, "E"), (2, "g"), (1, "noice"), (1, "alias"),
+                        (2, "flag"), (1, "undef")])
+        if k == "D":
+            defs = []
+            for _ in range(d.int(1, 3)):
+                nm = d.choice(["dsym", "txt", "DSYM", "a", "x", "lab0", "1x", "", "a b", "nop"])
+                v = d.choice(DEFVALS)
+                defs.append(nm + v)
+                if nm and d.bool(0.7):
+                    lines.insert(d.int(0, len(lines)), "\t%s\t%s" % (d.choice(["db", "dc.b", "dw", "byt", "fcb", "data", "dfb"]), nm))
+            out += ["-D", ",".join(defs)]
+        elif k == "cpu":
+            out += ["-cpu", d.choice([cl[d.int(0, len(cl) - 1)], "nosuch", "", "68000:cpu=1", "z80,x"])]
+        elif k == "radix":
+            out += ["-listradix", d.choice(["2", "8", "10", "16", "36", "1", "37", "0", "-1", "x", "3"]), "-L"]
+        elif k == "split":
+            out += ["-splitbyte", d.choice([":", ".", "ab", "", "'", "0"])]
+        elif k == "t":
+            out += ["-t", d.choice(["0", "1", "255", "511", "0x1ff", "-1", "x", "$ff", "65536"]), "-L"]
+        elif k == "maxerr":
+            out += ["-maxerrors", d.choice(["0", "1", "2", "5", "-1", "x", "99999999999"])]
+        elif k == "maxinc":
+            out += ["-maxinclevel", d.choice(["0", "1", "3", "300", "-1", "x"])]
+        elif k == "i":
+            out += ["-i", d.choice([".", "/nonexistent", "a:b:c", "", "." * 300])]
+        elif k == "o":
+            out += ["-o", d.choice(["out.p", "none/out.p", "", ".", "t.asm"])]
+        elif k == "olist":
+            out += ["-olist", d.choice(["out.lst", "none/out.lst", "", "."]), "-L"]
+        elif k == "share":
+            out += [d.choice(["-c", "-p", "-a"]), "-shareout", d.choice(["out.h", "none/out.h", "", "."])]
+            lines.append("\tshared\tlab0,x,dsym")
+        elif k == "E":
+            out += ["-E", d.choice(["err.log", "none/err.log", "!1", "!2", "!0", "!9"])]
+        elif k == "g":
+            out += ["-g", d.choice(["MAP", "ATMEL", "NOICE", "map", "x", ""])]
+        elif k == "noice":
+            out += ["-noicemask", d.choice(["1", "0x7f", "0", "-1", "x", "65535"]), "-g", "NOICE"]
+        elif k == "alias":
+            out += ["-alias", d.choice(["mycpu=z80", "mycpu=nosuch", "z80=6502", "=", "a=b=c", "mycpu"])]
+            lines.insert(0, "\tcpu\tmycpu")
+        elif k == "undef":
+            out += [d.choice(["+D", "+U", "+L", "+x", "+cpu", "+i", "+q"]), d.choice(["dsym", "x", "."])]
+        else:
+            out += [d.choice(["-gnuerrors", "-werror", "-w", "-warnranges", "-n", "-h", "-Y", "-X", "-l", "-G", "+G",
+                              "-supmode", "-quiet", "-c", "-p", "-a", "-zzz", "-", "--", "-LL", "-Lg"])]
+    return out
 
 
 def build_run(case, d, flavour):
